@@ -429,16 +429,6 @@ theorem inv_storeOne (s : Store) (box : Bytes) (l : Link) (rank : Nat) (new : Li
       · exact hset s hi
     · exact hset s hi
 
-theorem inv_storeSeq (s : Store) (box : Bytes) (new : List Bytes) (mode : Flags.Mode) (ranks : List Nat) (hi : Inv s) :
-    Inv (s.storeSeq box new mode ranks).1 := by
-  induction ranks generalizing s with
-  | nil => exact hi
-  | cons r rs ih =>
-    unfold Store.storeSeq
-    split
-    · exact ih s hi
-    · exact ih _ (inv_storeOne s box _ r new mode hi)
-
 theorem inv_storeUid (s : Store) (box : Bytes) (new : List Bytes) (mode : Flags.Mode) (uids : List Nat) (hi : Inv s) :
     Inv (s.storeUid box new mode uids).1 := by
   induction uids generalizing s with
@@ -448,6 +438,13 @@ theorem inv_storeUid (s : Store) (box : Bytes) (new : List Bytes) (mode : Flags.
     split
     · exact ih s hi
     · exact ih _ (inv_storeOne s box _ _ new mode hi)
+
+theorem inv_storeSeq (s : Store) (box : Bytes) (new : List Bytes) (mode : Flags.Mode) (ranks : List Nat) (hi : Inv s) :
+    Inv (s.storeSeq box new mode ranks).1 := by
+  unfold Store.storeSeq
+  split
+  · exact hi
+  · exact inv_storeUid s box new mode _ hi
 
 theorem inv_expungeBy (s : Store) (box : Bytes) (doomed : Link → Bool) (hi : Inv s) : Inv (s.expungeBy box doomed).1 := by
   unfold Store.expungeBy
